@@ -5,6 +5,7 @@ props = [json.loads(l) for l in open('/verif/properties.jsonl')]
 TRUST = "go/ssa lowering; the gosym engine's instruction semantics (every cover-point model and every counterexample is replayed through the natively compiled harness); solvers z3 5.1.0 / z3 4.8.12 / cvc5 1.0 (portfolio, any error or unknown is inconclusive); the harness oracles in /verif/harness"
 CHECKS = {
  "C10": dict(text="Bounded model checking of the generated token package of corpus grammars (hostile spellings; combined, -no_lexer, lexer-only, with error symbol): INVALID=0, EOF=1, one distinct number per terminal, Type(Id(n)) == n for a symbolic n, Id(Type(s)) == s for every terminal, unknown names (symbolic, <= 3 bytes) map to INVALID. The lexer/parser half of the property is enforced through C01/C02/C05/C06, whose oracles speak names and convert through the generated TokMap.", ref="7 C10", tech="symbolic execution of generated Go (go/ssa -> QF_BV), decided by z3/cvc5"),
+ "C12": dict(text="Bounded model checking of flagged builds: parsers generated with -zip, -debug_parser, -v, -no_lexer (and combined) are run in lock-step with the same reference canonical LR(1) machine as the flag-free build (verdict, reductions, offending token, expected tokens) for every token sequence up to the bound; lexers generated with -debug_lexer / -zip / -v are checked against the same reference lexer and position specification as the flag-free build.", ref="7 C12", tech="symbolic execution of generated Go in lock-step with reference machines (QF_BV); -zip tables obtained natively and injected; z3/cvc5"),
  "C16": dict(text="Bounded model checking of reuse: generated Lexer.Reset (any earlier state, and real histories of Scan calls) and generated Parser.Parse on a used parser object are compared, token by token / action call by action call, with fresh objects on the same input; abstract tables cover all automata up to the state bound, corpus tables confirm counterexamples.", ref="7 C16", tech="self-composition (2-safety) harness executed symbolically over abstract tables, QF_BV, decided by z3/cvc5"),
  "C17": dict(text="Non-interference by solver: every store executed by the generated entry points on abstract tables and symbolic input must target an object allocated by the caller's own calls; 'path condition AND target pre-exists' is unsat for every store, so the generated code performs no write to shared state and results per goroutine are the sequential ones.", ref="7 C17", tech="store-target obligations from symbolic execution of the generated Go over abstract tables (QF_BV), decided by z3/cvc5"),
  "C18": dict(text="Bounded model checking of the real DisjunctRangeSet.AddRange/insertRange/AddLexTNode/List/Range and Item.match (go/ssa -> QF_BV): one inductive step from an arbitrary well-formed class set plus a from-empty run; unsat for every rune/range value inside the bound.", ref="7 C18", tech="symbolic execution of go/ssa into QF_BV, inductive step + BMC, decided by z3/cvc5"),
